@@ -57,6 +57,8 @@ impl Group for C11Sim {
             c("newch 2|blkn 6|hb|newch 3|blk+ g|hb|restart|newch 2|restart|blkn 7|hb|newch 3|restart|forget 1"),
             // the on-disk store: what a crash image of the database file holds after each request
             c("world redb|al add g|blk+ g|vh 0 g 0|rv 0|forget 0|blk+ g|blkn 3|newch 2|ks 1000|restart|scp 0 0|blk- g"),
+            // blocks through the protocol handler's AddBlock arm, with and without a ready channel
+            c("HBLK+ g|restart|HBLK+ b|HBLK+ g|blk- g|restart|HBLK+ g"),
             // a full channel map
             c("newch 1|newch 2|newch 3|newch 4|restart|newch 4|forget 2|newch 4|restart|newch 5"),
             // closing through either entry point must be durable
@@ -95,6 +97,10 @@ impl Group for C11Sim {
             if rng.chance(4, 5) { pre.push("act".to_string()); }
             for (i, o) in pre.into_iter().enumerate() { ops.insert(i, o); }
         }
+        // blocks arrive through the protocol handler in a third of the cases
+        for i in 0..ops.len() {
+            if ops[i].starts_with("blk+ ") && rng.chance(1, 3) { ops[i] = ops[i].replacen("blk+", "HBLK+", 1); }
+        }
         // sometimes the last request runs while the store refuses writes (in `world backup`: either side)
         if rng.chance(1, 4) {
             let inner = rng.pick(&["vh 0 g 0", "rv 0", "scp 0 0", "scp1 0 0", "cpr 0 g", "sh 0", "shr", "shx 0 g", "mc g", "mc1 g", "act", "al add g", "newch 5", "forget 0", "forget 1"]).to_string();
@@ -107,6 +113,13 @@ impl Group for C11Sim {
         ops
     }
     fn exec_case(&self, ops: &[String]) -> CaseOut {
+        exec_c11(ops)
+    }
+}
+
+/// run one case with the durability monitors (shared by the model-compared group and the monitor-only one)
+fn exec_c11(ops: &[String]) -> CaseOut {
+    {
         let mut co = CaseOut::default();
         let mut sim = Sim::new_world(ops.first().map(|o| o.as_str()).unwrap_or(""));
         let mut kinds_changed = std::collections::BTreeSet::new();
@@ -183,6 +196,49 @@ impl Group for C11Sim {
     }
 }
 
+/// A node WITHOUT a ready channel (`world stub`: the channel is never set up, the tracker has no listener):
+/// monitor-only, because the node-request model assumes the one ready channel of the other worlds.
+pub struct C11Stub;
+
+impl Group for C11Stub {
+    fn property(&self) -> &'static str { "C11" }
+    fn model(&self) -> Option<&'static str> { None }
+    fn rule(&self) -> &'static str {
+        "a node whose only channel is a stub (no ready channel, no tracker listener): blocks through the protocol handler's \
+         AddBlock arm and directly, allowlist, keysends, new/forget channel, heartbeat, restarts; after every request the \
+         durable view of a second node restored from the store (and from the crash point between prepare and commit) is \
+         compared with the running node; monitor-only (no model); non-trivial as for the main group"
+    }
+    fn budget(&self, tier: Tier) -> usize { if tier == Tier::Quick { 40 } else { 600 } }
+    fn corpus(&self) -> Vec<Vec<String>> {
+        let c = |s: &str| s.split('|').map(|x| x.to_string()).collect::<Vec<_>>();
+        vec![
+            c("world stub|HBLK+ g|HBLK+ g|restart|HBLK+ g|newch 2|HBLK+ g|restart|blk- g"),
+            c("world stub|blk+ g|al add g|HBLK+ g|ks 1000|restart|blkn 7|hb|restart|newch 3"),
+        ]
+    }
+    fn gen_case(&self, rng: &mut Rng, _tier: Tier) -> Vec<String> {
+        let mut ops = vec!["world stub".to_string()];
+        for _ in 0..rng.range(4, 12) {
+            ops.push(match rng.below(12) {
+                0..=3 => format!("HBLK+ {}", if rng.chance(4, 5) { "g" } else { "b" }),
+                4 => "blk+ g".to_string(),
+                5 => "blk- g".to_string(),
+                6 => format!("al add {}", rng.pick(&["g", "gx", "m"])),
+                7 => format!("ks {}", *rng.pick(&[1000u64, 5_000_000])),
+                8 => format!("newch {}", rng.range(2, 5)),
+                9 => format!("forget {}", rng.below(3)),
+                10 => "hb".to_string(),
+                _ => "restart".to_string(),
+            });
+        }
+        ops
+    }
+    fn exec_case(&self, ops: &[String]) -> CaseOut {
+        exec_c11(ops)
+    }
+}
+
 pub fn groups() -> Vec<Box<dyn Group>> {
-    vec![Box::new(C11Sim)]
+    vec![Box::new(C11Sim), Box::new(C11Stub)]
 }
